@@ -114,7 +114,8 @@ Qed.
 Record wf (st : state) (v : Model.val) : Prop := mkWf {
   wf_attached : forall x ps, partners st (fst x) (snd x) = Some ps ->
                              has (snd x) (o_att_s (get_obj st (fst x))) = true;
-  wf_target : forall x y, edge st x y -> kind_ok (snd y) v = true /\ in_range st y
+  (* a partner of a trait that accepts v accepts v too (links join traits of one kind) and exists *)
+  wf_target : forall x y, edge st x y -> kind_ok (snd x) v = true -> kind_ok (snd y) v = true /\ in_range st y
 }.
 
 Lemma wf_frame s t v : same_frame s t -> wf s v -> wf t v.
@@ -122,9 +123,9 @@ Proof.
   intros F [W1 W2]. pose proof F as [L Fo]. split.
   - intros x ps Hp. destruct (Fo (fst x)) as (_ & _ & _ & H4 & _). rewrite <- H4.
     apply (W1 x ps). rewrite (partners_frame s t _ _ F). exact Hp.
-  - intros x y He. assert (edge s x y) as He'.
+  - intros x y He Hkx. assert (edge s x y) as He'.
     { destruct He as (ps & Hp & Hin). exists ps. rewrite (partners_frame s t _ _ F). auto. }
-    destruct (W2 x y He') as [Hk Hr]. split; [exact Hk|eapply in_range_frame; eassumption].
+    destruct (W2 x y He' Hkx) as [Hk Hr]. split; [exact Hk|eapply in_range_frame; eassumption].
 Qed.
 
 Lemma same_tables_lock st o n :
@@ -146,8 +147,8 @@ Proof.
   intros [W1 W2]. destruct (same_tables_lock st o n) as [L T]. split.
   - intros x ps Hp. destruct (T (fst x)) as (_ & H2 & _). rewrite <- H2.
     apply (W1 x ps). rewrite <- (partners_lock st o n). exact Hp.
-  - intros x y (ps & Hp & Hin). rewrite partners_lock in Hp.
-    destruct (W2 x y (ex_intro _ ps (conj Hp Hin))) as [Hk [R1 R2]]. split; [exact Hk|].
+  - intros x y (ps & Hp & Hin) Hkx. rewrite partners_lock in Hp.
+    destruct (W2 x y (ex_intro _ ps (conj Hp Hin)) Hkx) as [Hk [R1 R2]]. split; [exact Hk|].
     destruct (T (fst y)) as (_ & _ & H3). split; [lia|]. rewrite <- H3. exact R2.
 Qed.
 
@@ -251,7 +252,7 @@ Section Spread.
     assert (forall q, In q ps -> kind_ok (snd q) v = true /\ in_range st3 q) as Hq.
     { intros q Hin. assert (edge st (o, n) q) as He.
       { exists ps. cbn [fst snd]. rewrite (partners_frame _ _ o n F2). auto. }
-      destruct (wf_target _ _ W _ _ He) as [Hkq Hrq]. split; [exact Hkq|].
+      destruct (wf_target _ _ W _ _ He Hk) as [Hkq Hrq]. split; [exact Hkq|].
       destruct (same_tables_lock st2 o n) as [L T]. destruct (in_range_frame _ _ q F2 Hrq) as [R1 R2].
       destruct (T (fst q)) as (_ & _ & H3). split; [fold st3 in L; lia|]. fold st3 in H3. rewrite <- H3. exact R2. }
     destruct (fold_spread f IH st3 W3 HPhi3 ps st3 Hov (same_frame_refl st3) Hq) as (O4 & F4 & [S3 S5] & S4).
@@ -289,8 +290,12 @@ Inductive reach (st : state) (x : node) : node -> Prop :=
 Definition consistent (st : state) : Prop := forall x y, edge st x y -> val st x = val st y.
 Definition no_locks (st : state) : Prop := forall x, locked st x = false.
 
-Theorem assign_converges v f st o n :
-  wf st v -> consistent st -> no_locks st -> overflow st = false -> (Phi st < f)%nat ->
+(* agreement is only needed on the part of the graph the assignment can reach *)
+Definition consistent_from (st : state) (x : node) : Prop :=
+  forall y z, reach st x y -> edge st y z -> val st y = val st z.
+
+Theorem assign_converges_from v f st o n :
+  wf st v -> consistent_from st (o, n) -> no_locks st -> overflow st = false -> (Phi st < f)%nat ->
   kind_ok n v = true -> in_range st (o, n) ->
   let st' := fst (assign f st o n v) in
   overflow st' = false /\ same_frame st st' /\
@@ -303,12 +308,23 @@ Proof.
   destruct (assign_spread v f st o n W Hov Hl HPhi Hk Hr) as [V [S3 S5]]. fold st' in V, S3, S5.
   split; [exact O'|]. split; [exact F'|]. split; [|intros y _; apply S3].
   assert (forall y, reach st (o, n) y -> val st y = val st (o, n)) as Hsame.
-  { intros y R. induction R as [|y z R IHR He]; [reflexivity|]. rewrite <- (C y z He). exact IHR. }
+  { intros y R. induction R as [|y z R IHR He]; [reflexivity|]. rewrite <- (C y z R He). exact IHR. }
   intros y R. induction R as [|y z R IHR He]; [exact V|].
   destruct (val_dec (val st y) v) as [E|E].
   - (* everything reachable already held v *)
-    destruct (S3 z) as [E'|E']; [|exact E']. rewrite E'. rewrite <- (C y z He). exact E.
+    destruct (S3 z) as [E'|E']; [|exact E']. rewrite E'. rewrite <- (C y z R He). exact E.
   - destruct (S5 y z He E IHR) as [L|E']; [|exact E']. rewrite (NL z) in L. discriminate.
+Qed.
+
+Theorem assign_converges v f st o n :
+  wf st v -> consistent st -> no_locks st -> overflow st = false -> (Phi st < f)%nat ->
+  kind_ok n v = true -> in_range st (o, n) ->
+  let st' := fst (assign f st o n v) in
+  overflow st' = false /\ same_frame st st' /\
+  (forall y, reach st (o, n) y -> val st' y = v) /\
+  (forall y, ~ reach st (o, n) y -> val st' y = val st y \/ val st' y = v).
+Proof.
+  intros W C. apply assign_converges_from; [exact W|]. intros y z _ He. apply C. exact He.
 Qed.
 
 (* ... and the linked traits agree again afterwards, wherever the tables are symmetric or not *)
@@ -329,9 +345,10 @@ Definition wfb (st : state) (v : Model.val) : bool :=
     let ob := get_obj st o in
     forallb (fun e =>
       has (fst e) (o_att_s ob)
-      && forallb (fun y => kind_ok (snd y) v
-                           && Nat.ltb (fst y) (length (objs st))
-                           && Nat.ltb (snd y) (length (o_vals (get_obj st (fst y))))) (snd e))
+      && (negb (kind_ok (fst e) v)
+          || forallb (fun y => kind_ok (snd y) v
+                               && Nat.ltb (fst y) (length (objs st))
+                               && Nat.ltb (snd y) (length (o_vals (get_obj st (fst y))))) (snd e)))
       (o_info ob))
     (seq 0 (length (objs st))).
 
@@ -363,17 +380,18 @@ Proof.
   intros H. unfold wfb in H. rewrite forallb_forall in H.
   assert (forall o n ps, partners st o n = Some ps ->
             has n (o_att_s (get_obj st o)) = true /\
-            forall y, In y ps -> kind_ok (snd y) v = true /\ in_range st y) as Hall.
+            (kind_ok n v = true -> forall y, In y ps -> kind_ok (snd y) v = true /\ in_range st y)) as Hall.
   { intros o n ps Hp. pose proof (partners_in_range _ _ _ _ Hp) as Ho.
     specialize (H o ltac:(apply in_seq; lia)). cbn zeta in H. rewrite forallb_forall in H.
     specialize (H (n, ps) (assoc_In _ _ _ Hp)). cbn [fst snd] in H.
-    apply andb_prop in H. destruct H as [H1 H2]. split; [exact H1|].
+    apply andb_prop in H. destruct H as [H1 H2]. split; [exact H1|]. intros Hkn.
+    rewrite Hkn in H2. cbn [negb orb] in H2.
     rewrite forallb_forall in H2. intros y Hy. specialize (H2 y Hy).
     apply andb_prop in H2. destruct H2 as [H2 H4]. apply andb_prop in H2. destruct H2 as [H2 H3].
     apply Nat.ltb_lt in H3, H4. split; [exact H2|split; assumption]. }
   split.
   - intros x ps Hp. apply (Hall _ _ _ Hp).
-  - intros x y (ps & Hp & Hin). apply (proj2 (Hall _ _ _ Hp) y Hin).
+  - intros x y (ps & Hp & Hin) Hkx. apply (proj2 (Hall _ _ _ Hp) Hkx y Hin).
 Qed.
 
 Lemma consistentb_sound st : consistentb st = true -> consistent st.
